@@ -6,6 +6,8 @@ CONSTANTS
   Txs <- MCTxs
   FixTxIndexMissingBlock = FALSE
   FixZeroHashState = FALSE
+  FixLegacyZeroWriteLog = FALSE
+  LubZeroShortcut = FALSE
   WithPreConfirmed = TRUE
 INIT MBTInit
 NEXT MBTNext
